@@ -142,17 +142,18 @@ CLAIMED["C16"] = dict(
 
 CLAIMED["C01"] = dict(
     category="proof",
-    text="C01_legal_is_the_definition: the boolean legality test evaluated inside Coq on every run of the correspondence and by the monitor at every "
-         "observation point equals the property's five clauses, for all machines and configurations; C01_initial_configuration_legal: the configuration "
-         "built by entering the root is legal for EVERY well-formed machine whose compound states declare a non-history initial child, on both "
-         "engines, by induction over the default descent; legality is a property of the active set and is "
-         "preserved by snapshot/restore; unhandled events, action lists and aborted transitions keep the configuration; what a transition exits is "
-         "confined to active proper descendants of its domain (to the target's region under a parallel domain). The universal invariant is REFUTED "
-         "for the code at HEAD by a kernel-checked witness (C01_invariant_refuted = recorded finding F5, transition targeting the machine root). "
-         "Partial: preservation of legality by exit + entry for all other target shapes is decided by the correspondence (exhaustive small trees x all "
-         "source/target pairs x both engines x pure API, legality evaluated at every hook / subscriber / snapshot point) and not by induction.",
-    technique="Coq proof (boolean reflection of the legality definition, frame lemmas, refutation witness) + vm_compute correspondence (K-macro) + monitor",
-    design_ref="DESIGN.md section 5 C01")
+    text="THE INVARIANT IS PROVED for whole runs of both engines: C01_sync_runs_stay_legal / C01_async_runs_stay_legal - for EVERY well-formed "
+         "machine whose compound states declare a non-history initial child and none of whose transitions targets the machine root or a history "
+         "pseudo-state (four decidable side conditions), if start() does not fail then after ANY sequence of events the configuration is legal. "
+         "Built from C01_initial_configuration_legal (induction over the default descent), C01_transition_effect (closed formula: configuration "
+         "after a transition = before minus the exit list plus the entered set), C01_transition_preserves_legality (a replacement lemma over the "
+         "state tree, for compound and parallel domains) and C01_event_preserves_legality (also when a transition aborts: rollback); "
+         "C01_legal_is_the_definition ties the boolean test used everywhere to the property's five clauses. The invariant is REFUTED for the code at "
+         "HEAD for transitions targeting the machine root (C01_invariant_refuted = recorded finding F5). Partial: transitions targeting history "
+         "states are outside the theorems and decided by the correspondence (legality evaluated in Coq at every hook / subscriber / snapshot point "
+         "of every generated run: exhaustive small trees x all source/target pairs x both engines x pure API).",
+    technique="Coq proof (induction over runs: default descent, transition effect formula, subtree replacement lemma) + vm_compute correspondence (K-macro) + monitor",
+    design_ref="DESIGN.md section 5 C01 and section A.3")
 CLAIMED["C03"] = dict(
     category="proof",
     text="C03_phases_and_event_identity: for ALL machines, transitions, events, states and both engines, the record of a successful external transition "
